@@ -13,7 +13,7 @@ import (
 )
 
 func init() {
-	core.Register(core.Check{ID: "C17", Level: "exploration", Run: func(c *core.Ctx) { runC17(c); historyPass(c, "C17"); reentrancyPass(c, "C17") }})
+	core.Register(core.Check{ID: "C17", Level: "exploration", Run: func(c *core.Ctx) { runC17(c); historyPass(c, "C17"); reentrancyPass(c, "C17"); arch386Pass(c, "C17") }})
 }
 
 type c17pt struct {
